@@ -693,6 +693,10 @@ func runParent(cfg *Config, tier string, seed uint64) int {
 			m.Inconclusive = append(m.Inconclusive, fmt.Sprintf("batch %d: worker killed by SIGKILL (state %s %d)", j.batch, state, idx))
 			return
 		}
+		if strings.Contains(stderr, "no space left on device") || strings.Contains(stderr, "cannot allocate memory") || strings.Contains(stderr, "resource temporarily unavailable") {
+			m.Inconclusive = append(m.Inconclusive, fmt.Sprintf("batch %d: worker died of an environment fault (disk/memory/process limit), state %s %d: %s", j.batch, state, idx, firstFatalLines(stderr)))
+			return
+		}
 		if state == "open" {
 			kind := "crash"
 			if strings.Contains(stderr, "stack overflow") || strings.Contains(stderr, "goroutine stack exceeds") {
